@@ -77,8 +77,34 @@ def rand_uri(rng, n=None):
         rng.choice([b"1", b".1", b"1.1", b"/1.1", b"HTTP/", b"HTTP/1", b"HTTP/1.1", b"HTTP/0.9", b"HTTP/10.1", b"P/1.1", b"9"])
 
 
+GOOD_METHODS = [b"GET", b"GET", b"GET", b"POST", b"HEAD", b"PUT", b"OPTIONS", b"DELETE", b"FOO", b"M" * 32, b"get", b"PURGE"]
+
+
+def good_line(rng, relaxed):
+    """a request line that is valid in the given mode (mostly)"""
+    m = rng.choice(GOOD_METHODS)
+    n = rng.choice([1, 1, 2, 3, 5, 8, 13, 30])
+    u = b"/" + bytes(rng.choice(URI_STRICT) for _ in range(n - 1))
+    if rng.random() < 0.15:
+        u = b"http://h.example" + u
+    if rng.random() < 0.08:
+        u += rng.choice([b"1", b".1", b"9", b"HTTP/1", b"/1.1", b"P/1.1"])
+    v = rng.choice([b"HTTP/1.1", b"HTTP/1.1", b"HTTP/1.1", b"HTTP/1.0", b"HTTP/1.5", b"HTTP/2.0", None])
+    if v is None and rng.random() < 0.7:
+        m = b"GET"
+    d1 = d2 = b" "
+    eol = b"\r\n"
+    if relaxed and rng.random() < 0.4:
+        d1 = rng.choice(DELIMS_RELAXED[:-2] + [b" "]) or b" "
+        d2 = rng.choice(DELIMS_RELAXED[:-2] + [b" "]) or b" "
+        eol = rng.choice([b"\r\n", b"\n", b"\r\r\n"])
+    return m + d1 + u + (d2 + v if v is not None else b"") + eol
+
+
 def rand_line(rng, relaxed):
     """request line including its terminator"""
+    if rng.random() < 0.55:
+        return good_line(rng, relaxed)
     m = rng.choice(METHODS) if rng.random() < 0.8 else bytes(rng.choice(TCHAR) for _ in range(rng.choice([1, 3, 7, 31, 32, 33])))
     dl = DELIMS_RELAXED if (relaxed and rng.random() < 0.7) else DELIMS_STRICT
     v = rng.choice(VERSIONS)
@@ -110,7 +136,7 @@ def rand_headers(rng, complete=None):
 
 
 def rand_head(rng, relaxed):
-    lead = rng.choice(LEAD)
+    lead = rng.choice(LEAD) if (relaxed or rng.random() < 0.3) else b""
     head = lead + rand_line(rng, relaxed) + rand_headers(rng)
     if rng.random() < 0.3:
         head += rng.choice([b"BODY", b"GET /next HTTP/1.1\r\n\r\n", b"\r\n", b"\n", b"x"])
@@ -195,7 +221,7 @@ def sized_head(rng, relaxed, limit):
     return m + b" /" + b"u" * (limit + rng.randrange(0, 50)) + v + eol + rand_headers(rng)
 
 
-LIMITS_SMALL = [34, 35, 40, 48, 64, 64, 100, 128, 200, 512]
+LIMITS_SMALL = [34, 35, 40, 48, 64, 64, 80, 100, 128, 200]
 
 
 def gen_pair(rng):
@@ -203,7 +229,7 @@ def gen_pair(rng):
     relaxed = 1 if rng.random() < 0.6 else 0
     k = rng.random()
     if k < 0.45:
-        limit = rng.choice([65536, 65536, 512, 200, 100])
+        limit = rng.choice([65536, 65536, 512, 200, 100, 64])
         b = rand_head(rng, relaxed)
     elif k < 0.65:
         limit = rng.choice([65536, 512, 100])
@@ -224,12 +250,12 @@ def gen_pair(rng):
 
 def gen_cases(rng, n):
     cases = []
-    # a few full-size cases at the default limit
+    # a few larger cases (the extracted model is quadratic in the line length: TokModel uses List.rev)
     for d in (-1, 0, 1):
         for relaxed in (0, 1):
-            b = b"GET /" + b"a" * (65536 + d - 5 - 9 - 1) + b" HTTP/1.1\r\n\r\n"
+            b = b"GET /" + b"a" * (2048 + d - 5 - 9 - 1) + b" HTTP/1.1\r\n\r\n"
             p = rng.randrange(1, len(b))
-            cases.append("rp.seg %d 65536 %s %s" % (relaxed, hx(b[:p]), hx(b[p:])))
+            cases.append("rp.seg %d 2048 %s %s" % (relaxed, hx(b[:p]), hx(b[p:])))
     while len(cases) < n:
         relaxed, limit, b = gen_pair(rng)
         k = rng.random()
@@ -272,6 +298,10 @@ def oracle(case, out):
         w, i = parse_seg_out(out)
     except Exception as ex:
         return ("oracle:unparsable", "unparsable implementation output %r (%s)" % (out[:100], ex))
+    if w["kind"] == i["kind"] == "R" and int(a[2]) < 34 and {w["code"], i["code"]} == {"400", "414"}:
+        # known: with request_header_max_size < maxMethodLength + 2 the blame rule (400 vs 414) sees a shorter window
+        return ("oracle:blame-window-small-limit", "limit %s < 34: blame rule answers %s one-shot but %s incrementally"
+                % (a[2], w["code"], i["code"]))
     if w["kind"] != i["kind"]:
         return ("oracle:kind", "one-shot outcome %s but incremental outcome %s" % (w["kind"], i["kind"]))
     fields = ["code", "mid", "mimg", "uri", "http", "ver", "mime"]
@@ -323,5 +353,5 @@ def run(res, tier):
                 "relaxed; a case is non-trivial when it has >= 2 non-empty segments and parsing got past leading empty lines")
     std.run_standard(res, PID, tier, area="reqparse", build_impl=impl, gen_cases=gen_cases, oracle=oracle,
                      corr_name="ReqparseModel vs src/http/one/RequestParser.cc, Parser.cc, mime_header.cc, http/RequestMethod.cc",
-                     gens=["charsets", "reqparse"], n_quick=30000, n_thorough=600000, seed_salt=21, mutate=mutate,
+                     gens=["charsets", "reqparse"], n_quick=25000, n_thorough=400000, seed_salt=21, mutate=mutate,
                      kind_fn=kind_fn, nontrivial_fn=nontrivial)
